@@ -1,38 +1,6 @@
-mod c01;
-mod c02;
-mod c03;
-mod dissect;
-mod c04;
-mod c06;
-mod c17;
-mod coin;
-mod common;
-mod desc;
-mod gen;
-mod genair;
-mod inst;
-
 #[global_allocator]
 static ALLOC: vf_core::crash::GuardAlloc = vf_core::crash::GuardAlloc;
 
 fn main() {
-    let args = vf_core::parse_args();
-    let level = match args.property.as_str() {
-        "C02" | "C03" | "C06" => "fault_enumeration",
-        _ => "exploration",
-    };
-    let mut run = vf_core::Run::new(&args, level);
-    match args.property.as_str() {
-        "C01" => c01::run(&mut run),
-        "C02" => c02::run(&mut run),
-        "C03" => c03::run(&mut run),
-        "C04" => c04::run(&mut run),
-        "C06" => c06::run(&mut run),
-        "C17" => c17::run(&mut run),
-        other => {
-            eprintln!("vf-stark does not serve {other} yet");
-            std::process::exit(2);
-        },
-    }
-    run.finish_and_exit();
+    vf_stark::main_entry();
 }
